@@ -5,7 +5,8 @@ services, two browsers (a `ServiceListener` and a handler) and a service-info lo
 virtual-time simulator; a hostile datagram stream (C02's generators: random bytes, wire-built and
 encoder-built messages plain and mutated, pointer graphs and chains; mutated copies of the instance's own
 captured traffic; well-formed queries/responses about the instance's names; the D8 / D8b label shapes;
-oversize datagrams) is delivered from mDNS and non-mDNS source ports at random gaps.  Observed: every
+oversize datagrams; valid announce / goodbye / goodbye+live / live+goodbye / live+live datagrams about one instance of the browsed type; bursts of
+valid QM queries at gaps around 0/50/400/450/480 ms that fill the aggregation queue) is delivered from mDNS and non-mDNS source ports at random gaps.  Observed: every
 exception that leaves `datagram_received`, every context that reaches the loop exception handler, that an
 oversize datagram changes nothing, and after the stream the two canaries: a well-formed query is answered,
 a well-formed announcement produces `Added` in both browsers; the lookup task ends without an exception.
@@ -36,7 +37,10 @@ TRUSTED = [
     "logging is not modelled",
 ]
 ASSUMPTIONS = [
-    "'keeps working' = the two canaries of the property (query answered within 3 s, announcement gives Added in every browser of that type at once) plus: the lookup task ends normally",
+    "'keeps working' = the canaries of the property after EVERY stream: a QM PTR query (aggregated multicast path) and, 3 s later, a single-question QM SRV query "
+    "(immediate path) are each answered by multicast within 3 s; an announcement of a never-seen instance gives Added in every browser of that type at once; after an "
+    "announcement of the instance that was announced/withdrawn/re-announced inside the stream every browser's latest Added/Removed callback for it is Added; "
+    "plus: the lookup task ends normally",
     "'no exception escapes into the event loop' = nothing propagates out of datagram_received and the loop's exception handler is never called (timers armed by datagram processing included)",
     "'ignored' for an oversize datagram = no datagram sent, no callback, listener memory, cache and timers unchanged",
 ]
@@ -179,14 +183,46 @@ def lookup_resp(rng):
     return hdr(0, 0x8400, 0, len(recs)) + b"".join(recs)
 
 
-KINDS = ["rand", "c02valid", "c02mut", "c02out", "c02outmut", "graph", "chain", "live", "livemut", "livemut", "query", "query", "querymut",
+CYC = "cyc"          # an instance of the browsed type that is announced / withdrawn / re-announced inside the streams
+BURST_GAPS = [0, 20, 30, 50, 50, 100, 400, 450, 450, 480, 480]
+
+
+def cycle_packet(rng, inst=CYC):
+    """valid responses about one instance of the browsed type: announcement, goodbye, and one datagram holding the same PTR twice
+    (TTL 0 and TTL > 0, both orders; two live copies with different TTLs)"""
+    t = wname(labels_of(TB))
+    i = wname([inst.encode()], b"\xc0\x0c")
+    live = rng.choice([120, 4500, 4500])
+    shape = rng.choice(["ann", "ann", "bye", "bye+live", "bye+live", "live+bye", "live+bye", "live+live", "full"])
+    if shape == "full":
+        return "cycle:full", announce_packet(inst, TB, "hcyc.local.", PEER, ttl=live)
+    ttls = {"ann": [live], "bye": [0], "bye+live": [0, live], "live+bye": [live, 0], "live+live": [120, 4500]}[shape]
+    recs = [rr(t if k == 0 else b"\xc0\x0c", 12, 1, ttl, i) for k, ttl in enumerate(ttls)]
+    return "cycle:" + shape, hdr(0, 0x8400, 0, len(recs)) + b"".join(recs)
+
+
+def burst_packets(rng, names):
+    """3-6 valid QM queries from the mDNS port, distinct ids, at gaps around 0/50/400/450/480 ms: several answer groups in the aggregation queue"""
+    out = []
+    for k in range(rng.choice([3, 3, 4, 6])):
+        nq = rng.choice([1, 1, 2])
+        body = b""
+        for _ in range(nq):
+            body += q(labels_of(rng.choice([TA, TA, names[1], "_services._dns-sd._udp.local."])), rng.choice([12, 12, 16, 255]), 1)
+        gap = rng.choice([1200, 5000]) if k == 0 and rng.random() < 0.6 else rng.choice(BURST_GAPS)
+        out.append((gap, hdr(rng.randrange(65536), 0, nq) + body))
+    return out
+
+
+KINDS = ["cycle", "cycle", "cycle", "burst", "burst", "rand", "c02valid", "c02mut", "c02out", "c02outmut", "graph", "chain", "live", "livemut", "livemut", "query", "query", "querymut",
          "resp", "hostile", "hostile", "lookup", "d8", "d8b", "oversize", "repeat"]
 
 
-def gen_item(rng, live, names, last):
+def gen_item(rng, live, names, last, k=None):
     from . import c02
 
-    k = rng.choice(KINDS)
+    if k is None:
+        k = rng.choice([x for x in KINDS if x not in ("cycle", "burst")])
     if k in ("live", "livemut") and not live:
         k = "c02mut"
     if k == "repeat" and last is None:
@@ -421,39 +457,59 @@ def simulate(case):
             if plan is not None:
                 it = plan[i]
                 gap, data, src, kind = it["gap"], bytes.fromhex(it["data"]), tuple(it["src"]), it.get("kind", "fixed")
+                subs = [(gap, kind, data, src)]
             else:
-                gap = rng.choice(GAPS)
-                kind, data = gen_item(rng, live, names, last)
-                src = (rng.choice(IPS), rng.choice(PORTS))
-                if kind == "d8":
-                    src = (src[0], rng.choice([40000, 40000, 5353]))
-            if gap:
-                await sim.sleep_ms(gap)
-            obs["items"].append({"gap": gap, "data": data.hex(), "src": list(src), "kind": kind})
-            obs["kinds"][kind] = obs["kinds"].get(kind, 0) + 1
-            last = data
-            r = deliver(data, src)
-            if r is not None:
-                obs["escapes"].append({"index": i, "exc": r, "kind": kind, "len": len(data)})
+                kind0 = rng.choice(KINDS)
+                if kind0 == "cycle":
+                    kind, data = cycle_packet(rng)
+                    subs = [(rng.choice(GAPS), kind, data, (PEER, 5353))]
+                elif kind0 == "burst":
+                    bsrc = (rng.choice([PEER, "10.9.9.9"]), 5353)
+                    subs = [(g, "burst", d, bsrc) for g, d in burst_packets(rng, names)]
+                else:
+                    kind, data = gen_item(rng, live, names, last, kind0)
+                    src = (rng.choice(IPS), rng.choice(PORTS))
+                    if kind == "d8":
+                        src = (src[0], rng.choice([40000, 40000, 5353]))
+                    subs = [(rng.choice(GAPS), kind, data, src)]
+            for gap, kind, data, src in subs:
+                if gap:
+                    await sim.sleep_ms(gap)
+                obs["items"].append({"gap": gap, "data": data.hex(), "src": list(src), "kind": kind})
+                obs["kinds"][kind] = obs["kinds"].get(kind, 0) + 1
+                last = data
+                r = deliver(data, src)
+                if r is not None:
+                    obs["escapes"].append({"index": len(obs["items"]) - 1, "exc": r, "kind": kind, "len": len(data)})
         await sim.sleep_ms(case["tail"])
         obs["live"] = len(live)
-        # ---- canary 1: a well-formed query is still answered
+        # ---- canaries 1a/1b: well-formed queries are still answered -- through the aggregated multicast path (QM PTR) and through
+        # the immediate path (single QM SRV question); 3 s covers aggregation (<= 620 ms) and the protected one-second queue (<= 1.2 s + 120 ms)
         await sim.sleep_ms(1500)
+
+        def answered_since(n0, rtype, owner):
+            for (tm, s_, ip, p, d) in sim.net.log[n0:]:
+                try:
+                    m = DNSIncoming(d)
+                    if m.valid and not m.is_query() and any(x.type == rtype and x.ttl > 0 and x.name.lower() == owner.lower() for x in m.answers()):
+                        return True
+                except Exception:
+                    pass
+            return False
+
+        cid = case.get("canary_id", 4242)
         n0 = len(sim.net.log)
-        cq = hdr(case.get("canary_id", 4242) & 0xFFFF, 0, 1) + q(labels_of(infos[0].name), 33)
-        r = deliver(cq, (PEER, 5353))
+        r = deliver(hdr(cid & 0xFFFF, 0, 1) + q(labels_of(TA), 12), (PEER, 5353))
+        obs["canary_p_raised"] = r
+        await sim.sleep_ms(3000)
+        obs["canary_p"] = answered_since(n0, 12, TA)
+        n0 = len(sim.net.log)
+        r = deliver(hdr((cid + 1) & 0xFFFF, 0, 1) + q(labels_of(infos[0].name), 33), (PEER, 5353))
         obs["canary_q_raised"] = r
         await sim.sleep_ms(3000)
-        answered = False
-        for (tm, s, ip, p, d) in sim.net.log[n0:]:
-            try:
-                m = DNSIncoming(d)
-                if m.valid and not m.is_query() and any(x.type == 33 and x.ttl > 0 and x.name.lower() == infos[0].name.lower() for x in m.answers()):
-                    answered = True
-            except Exception:
-                pass
-        obs["canary_q"] = answered
-        # ---- canary 2: a well-formed announcement still reaches the browsers
+        obs["canary_q"] = answered_since(n0, 33, infos[0].name)
+        # ---- canaries 2a/2b: well-formed announcements still reach the browsers -- a name never seen before must give Added in both;
+        # the instance that was announced / withdrawn inside the stream must be held by both browsers after it is announced again
         cname = "canary%d" % case["idx"]
         c0 = len(obs["callbacks"])
         r = deliver(announce_packet(cname, TB, "hc.local.", PEER), (PEER, 5353))
@@ -461,6 +517,14 @@ def simulate(case):
         await sim.sleep_ms(1000)
         got = {(c[1], c[2]) for c in obs["callbacks"][c0:] if c[3] == cname + "." + TB}
         obs["canary_a"] = sorted(t for t, e in got if e == "add")
+        r = deliver(announce_packet(CYC, TB, "hcyc.local.", PEER, port=82), (PEER, 5353))
+        obs["canary_c_raised"] = r
+        await sim.sleep_ms(1000)
+        held = {}
+        for c in obs["callbacks"]:
+            if c[3].lower() == (CYC + "." + TB).lower() and c[2] in ("add", "rem"):
+                held[c[1]] = c[2]
+        obs["canary_c"] = sorted(t for t, e in held.items() if e == "add")
         if lookup is not None:
             await lookup
         obs["lookup"] = lookup_res
@@ -491,15 +555,20 @@ def judge(obs):
     bad = []
     for e in obs["escapes"]:
         bad.append(("C15:escape:%s" % e["exc"], "%s escaped datagram_received (item %d, %s, %d bytes)" % (e["exc"], e["index"], e["kind"], e["len"])))
-    for k in ("canary_q_raised", "canary_a_raised"):
+    for k in ("canary_p_raised", "canary_q_raised", "canary_a_raised", "canary_c_raised"):
         if obs.get(k):
             bad.append(("C15:escape:%s" % obs[k], "%s escaped datagram_received on the canary datagram" % obs[k]))
     for e in obs["errors"]:
         bad.append(("C15:loop-exception:%s" % e["exc"], "the loop exception handler was called: %s" % e["msg"]))
     for o in obs["oversize"]:
         bad.append(("C15:oversize-processed", "a %d-byte datagram changed the instance (sends, callbacks, listener memory, cache, timers or draws)" % o["len"]))
+    if not obs.get("canary_p"):
+        bad.append(("C15:canary-ptr-query-unanswered", "a well-formed QM PTR query (aggregated multicast path) sent after the stream got no answer within 3 s"))
     if not obs.get("canary_q"):
         bad.append(("C15:canary-query-unanswered", "a well-formed SRV query sent after the stream got no answer within 3 s"))
+    if obs.get("canary_c") != ["h", "l"]:
+        bad.append(("C15:canary-reannouncement-unseen", "after a well-formed announcement of the instance that was announced/withdrawn inside the stream, the browsers whose "
+                    "latest Added/Removed callback for it is Added are %s, expected both" % obs.get("canary_c")))
     if obs.get("canary_a") != ["h", "l"]:
         bad.append(("C15:canary-announcement-unseen", "a well-formed announcement sent after the stream produced Added in %s, expected both browsers" % obs.get("canary_a")))
     if obs.get("lookup", {}).get("raised"):
@@ -513,43 +582,52 @@ def fixed_case(case, items):
     return c
 
 
-def minimise(case, obs, sig, budget=30):
-    """shrink the delivered stream while the same signature is reported (cheap ddmin: singles, suffix cut, greedy removal)"""
+def minimise(case, obs, sig, budget=120):
+    """shrink the delivered stream while the same signature is reported: the item an escape points at alone, suspicious singles,
+    then ddmin (drop chunks of n/2, n/4, ... 1 items).  The gaps of dropped items are added to the next kept item, so the
+    remaining datagrams keep their absolute arrival times."""
     items = obs["items"]
-    best = fixed_case(case, items)
+    runs = [0]
 
     def fails(its):
+        runs[0] += 1
         o = simulate(fixed_case(case, its))
-        return any(s == sig for s, _ in judge(o))
+        return any(s_ == sig for s_, _ in judge(o))
 
-    runs = 0
-    # the item an escape points at, alone
     for e in obs["escapes"]:
-        if runs >= budget:
+        if runs[0] >= budget:
             break
-        runs += 1
         its = [dict(items[e["index"]], gap=0)]
         if fails(its):
             return fixed_case(case, its)
+    tried = 0
     for i in range(len(items)):
-        if runs >= budget:
+        if runs[0] >= budget or tried >= 12:
             break
-        if items[i]["kind"] in ("d8", "d8b", "hostile", "oversize", "chain", "graph"):
-            runs += 1
+        if items[i]["kind"] in ("d8", "d8b", "hostile", "oversize", "chain", "graph") or items[i]["kind"].startswith("cycle:"):
+            tried += 1
             its = [dict(items[i], gap=0)]
             if fails(its):
                 return fixed_case(case, its)
     cur_items = list(items)
-    i = 0
-    while i < len(cur_items) and runs < budget and len(cur_items) > 1:
-        cand = cur_items[:i] + cur_items[i + 1:]
-        runs += 1
-        if fails(cand):
-            cur_items = cand
-        else:
-            i += 1
-    best = fixed_case(case, cur_items)
-    return best
+    chunk = max(1, len(cur_items) // 2)
+    while runs[0] < budget and len(cur_items) > 1:
+        i = 0
+        progress = False
+        while i < len(cur_items) and runs[0] < budget:
+            rest = cur_items[i + chunk:]
+            if rest:
+                rest = [dict(rest[0], gap=rest[0]["gap"] + sum(x["gap"] for x in cur_items[i:i + chunk]))] + rest[1:]
+            cand = cur_items[:i] + rest
+            if cand and fails(cand):
+                cur_items = cand
+                progress = True
+            else:
+                i += chunk
+        if chunk == 1 and not progress:
+            break
+        chunk = max(1, chunk // 2) if chunk > 1 else 1
+    return fixed_case(case, cur_items)
 
 
 # ------------------------------------------------------------------------------------------
@@ -719,8 +797,9 @@ def run(ctx):
     res.rule = ("simulated instance (1-2 services, listener browser + handler browser, optional lookup) fed 5-60 datagrams at gaps 0 ms..11 s from "
                 "{5353, 40000, 53, 1, 65535} x {foreign, peer, own address}: C02 generators (random, wire-built, encoder-built, mutated, pointer graphs, chains), "
                 "replayed and mutated captured live traffic, well-formed queries/responses about the instance's names (TC, QU, known answers, probes), "
-                "hostile labels (D8/D8b shapes: 21/22/30/40/63 x 0xFF, dotted labels, truncated UTF-8), oversize (8966/8967/9000/20000), exact repeats; "
-                "then two canaries; non-trivial = distinct (destination tag, exception, mdns-port, unicast-reply) of a datagram block")
+                "hostile labels (D8/D8b shapes: 21/22/30/40/63 x 0xFF, dotted labels, truncated UTF-8), oversize (8966/8967/9000/20000), exact repeats, "
+                "valid responses holding one PTR twice (TTL 0 / > 0, both orders, cached and uncached), bursts of 3-6 valid QM queries at 0/20/50/100/400/450/480 ms gaps; "
+                "then four canaries (QM PTR and QM SRV query answered, new instance Added, cycled instance held again); non-trivial = distinct (destination tag, exception, mdns-port, unicast-reply) of a datagram block")
     acc, seen = [], {}
     for name, case in corpus_cases():
         res.count("corpus")
@@ -753,7 +832,8 @@ def replay(body):
     obs = simulate(case)
     bad = judge(obs)
     out = {"violates": bool(bad), "violations": ["%s: %s" % b for b in bad], "escapes": obs["escapes"], "loop_errors": obs["errors"],
-           "canary_query_answered": obs.get("canary_q"), "canary_announcement_added_in": obs.get("canary_a"), "lookup": obs.get("lookup"),
+           "canary_ptr_query_answered": obs.get("canary_p"), "canary_query_answered": obs.get("canary_q"),
+           "canary_announcement_added_in": obs.get("canary_a"), "canary_reannouncement_held_by": obs.get("canary_c"), "lookup": obs.get("lookup"),
            "impl_blocks": impl_tags(obs)[:40]}
     try:
         mb = C.run_driver([model_line(obs)])[0].split(" ")
